@@ -123,9 +123,6 @@ func (h *HttpServer) handleUnary(w http.ResponseWriter, r *http.Request) {
 		Implementation:    h.server.implementation,
 	}
 
-	ctx, hookCleanup := h.startDispatchHook(r.Context(), dispatchInfo, stats, &handlerErr)
-	defer hookCleanup()
-
 	// Application-protocol-version gate. HTTP doesn't route through
 	// server.serveOne — the check has to be wired in independently at
 	// the same point in the dispatch boundary (after method lookup,
@@ -136,11 +133,15 @@ func (h *HttpServer) handleUnary(w http.ResponseWriter, r *http.Request) {
 	if h.server.protocolVersionSet {
 		clientVersion, present := req.Metadata[MetaProtocolVersion]
 		if pverr := h.server.checkProtocolVersion(clientVersion, present); pverr != nil {
-			handlerErr = pverr
 			h.writeHttpError(w, http.StatusBadRequest, pverr, info.ResultSchema)
 			return
 		}
 	}
+
+	// Dispatch hooks see only calls that pass the gate, as on the pipe
+	// transport (serveOne runs the gate before OnDispatchStart).
+	ctx, hookCleanup := h.startDispatchHook(r.Context(), dispatchInfo, stats, &handlerErr)
+	defer hookCleanup()
 
 	params, err := deserializeParams(req.Batch, info.ParamsType)
 	if err != nil {
